@@ -1,6 +1,7 @@
 import sys
 from typing import Any
 
+from xsdata.codegen.exceptions import CodegenError
 from xsdata.codegen.mappers.mixins import RawDocumentMapper
 from xsdata.codegen.models import AttrType, Class
 from xsdata.codegen.utils import ClassUtils
@@ -55,6 +56,9 @@ class DictMapper(RawDocumentMapper):
             name: The attr name
             value: The data value to extract types and restrictions.
         """
+        if not name:
+            raise CodegenError("Unsupported json document, empty property name")
+
         if isinstance(value, list):
             if not value:
                 cls.build_class_attribute(target, name, None)
